@@ -64,7 +64,7 @@ POOL = ['VA', 'VB', 'VC']          # VC is inherited from the environment Exactl
 UNKNOWN = 'VX'                     # never set anywhere
 RECORDED = POOL + [UNKNOWN]
 TIMEOUTS = [30, 45, 60, 61, 75, 120, 600, 3600, None]
-N_SEEDED = {'quick': 1000, 'thorough': 40000}
+N_SEEDED = {'quick': 1500, 'thorough': 40000}
 
 
 # =================================================================================================
